@@ -337,6 +337,23 @@ def body(ctx, p):
                     bad.append((t2, 'guessed bond orders depend on call history', dflt[1], expl[1]))
             if any(abs(x - y) > 1e-12 * max(1, abs(x)) for x, y in zip(base0[1:], again[1:])):
                 bad.append((trip, 'angle not reproducible'))
+        # ONE bond-order list object (one order fixed, the other left to be guessed = None) reused for several angles: every call must guess
+        # for ITS OWN types, and the caller's list must still say None afterwards
+        for fixed_pos in (0, 1):
+            shared = [None, None]
+            shared[fixed_pos] = 1.41
+            before = list(shared)
+            for t2 in [('C_R', 'C_R', 'C_R'), ('H_', 'C_3', 'H_'), ('C_2', 'C_2', 'O_2'), ('C_3', 'C_3', 'H_')]:
+                got = RU.angle_params(*t2, bond_orders=shared)
+                fresh = [None, None]
+                fresh[fixed_pos] = 1.41
+                fresh[1 - fixed_pos] = o_guess_bo(t2[1 - fixed_pos], t2[2 - fixed_pos])
+                want = RU.angle_params(*t2, bond_orders=fresh)
+                if got[0] != want[0] or any(abs(x - y) > 1e-9 * max(1, abs(x)) for x, y in zip(got[1:], want[1:])):
+                    bad.append((t2, 'reused bond-order list: guessed order taken from an earlier angle', got[1], want[1]))
+                if shared != before:
+                    bad.append((t2, "caller's bond-order list modified", list(shared)))
+                    shared[:] = before
         ctx.observe('n', len(al) ** 2 * 5)
         ctx.require('bond orders: documented guesses; a user rule applies exactly to the pair of types it names', not bad, detail=dict(bad=bad[:5]))
         return
